@@ -1,5 +1,6 @@
 import SdxModel.Microdata
 import SdxModel.Stitch
+import SdxModel.Measures
 /-!
 # `syndiffix/synthesizer.py` — `Synthesizer.sample()` for one cluster
 
@@ -61,3 +62,22 @@ def buildTable (E : Env α) (F : Forest α) (convs : List (Conv α)) (isIntegral
     else doStitch F.snapped isIntegral entropy threshRel acc right p.1) acc
 
 end
+
+/-- `_clustering_context(main_column, forest)`: dependence matrix and entropies measured on the forest, row totals as
+Python's `sum` computes them -/
+def clusteringContext (E : Env Float) (F : Forest Float) (main : Option Nat) : ClusteringContext :=
+  let n := F.names.length
+  let dep : Array (Array Float) := ((List.range n).map fun i => ((List.range n).map fun j => dependencyEntry E F i j).toArray).toArray
+  let totalPer := (List.range n).map fun i => pySum (((List.range n).filter (· != i)).map fun j => (dep[i]!)[j]!)
+  { dep, entropy := (entropies E F).toArray, totalDependence := pySum totalPer, totalPerColumn := totalPer.toArray, main }
+
+/-- `Synthesizer(df, clustering=DefaultClustering(main_column, max_weight, merge_threshold, solver_alpha))` followed by
+`.sample()`, up to the `DataFrame`: measures, plan search and table assembly on one main RNG. For tables that the strategy
+does not sub-sample (at most `sample_size` rows). -/
+def sampleDefault (E : Env Float) (F : Forest Float) (convs : List (Conv Float)) (isIntegral : List Bool) (main : Option Nat)
+    (maxWeight mergeThresh alpha : Float) (streams : List (List Nat × List (Draw Float))) :
+    GM Float (Clusters × MTable (Cell Float) Float) := do
+  let ctx := clusteringContext E F main
+  let cl ← solve ctx maxWeight mergeThresh alpha
+  let t ← buildTable E F convs isIntegral ctx.entropy.toList 0.7 cl streams
+  return (cl, t)
